@@ -24,8 +24,8 @@ Inductive src :=
 | SNull
 | SStruct (cs : list src).               (* structural (TSL/TSB composed at the call site) *)
 
-(* WiringInputRef *)
-Record input := { in_src : src; in_tpath : list nat; in_rank : bool }.
+(* WiringInputRef; [in_passive] is the Passive ArgTag carried by the source port (`passive(port)`) *)
+Record input := { in_src : src; in_tpath : list nat; in_rank : bool; in_passive : bool }.
 
 (* what the caller passes besides the inputs: definition identity (std::type_index), the resolved
    schema pointers that are not implied by the inputs (first entry: output schema, 0 = none),
@@ -63,7 +63,8 @@ Fixpoint src_eqb (a b : src) : bool :=
   end.
 
 Definition input_eqb (a b : input) : bool :=
-  src_eqb (in_src a) (in_src b) && list_eqb Nat.eqb (in_tpath a) (in_tpath b) && Bool.eqb (in_rank a) (in_rank b).
+  src_eqb (in_src a) (in_src b) && list_eqb Nat.eqb (in_tpath a) (in_tpath b) && Bool.eqb (in_rank a) (in_rank b)
+  && Bool.eqb (in_passive a) (in_passive b).
 
 Definition optl_eqb (a b : option (list Z)) : bool :=
   match a, b with
@@ -86,12 +87,26 @@ Fixpoint norm_from (k : nat) (ins : list input) : list input :=
   match ins with
   | [] => []
   | i :: r =>
-      {| in_src := in_src i; in_tpath := (match in_tpath i with [] => [k] | p => p end); in_rank := in_rank i |}
+      {| in_src := in_src i; in_tpath := (match in_tpath i with [] => [k] | p => p end); in_rank := in_rank i;
+         in_passive := in_passive i |}
       :: norm_from (S k) r
   end.
 Definition norm_inputs (ins : list input) : list input := norm_from 0 ins.
 
-Definition make_key (d : ndef) (ins : list input) : key := (nd_def d, nd_sch d, norm_inputs ins, nd_scal d).
+(* The InputKey list of the code: source key, normalised target path, rank flag.  The Passive tag of
+   the source port is NOT part of it (source_key_for ignores arg_tag; add_node applies the tag to the
+   builder's active list, which is not one of the schema pointers of the key): mirrored by erasing it. *)
+Fixpoint key_from (k : nat) (ins : list input) : list input :=
+  match ins with
+  | [] => []
+  | i :: r =>
+      {| in_src := in_src i; in_tpath := (match in_tpath i with [] => [k] | p => p end); in_rank := in_rank i;
+         in_passive := false |}
+      :: key_from (S k) r
+  end.
+Definition key_inputs (ins : list input) : list input := key_from 0 ins.
+
+Definition make_key (d : ndef) (ins : list input) : key := (nd_def d, nd_sch d, key_inputs ins, nd_scal d).
 
 (* `const bool interns = schema.output != nullptr` *)
 Definition has_output (d : ndef) : bool := negb (hdz (nd_sch d) =? 0).
@@ -139,7 +154,7 @@ Fixpoint resolve_inputs (env : list (nat * nat)) (phs : list nat) (ins : list in
   | [] => Some []
   | i :: r =>
       match resolve env phs (in_src i), resolve_inputs env phs r with
-      | Some s, Some r' => Some ({| in_src := s; in_tpath := in_tpath i; in_rank := in_rank i |} :: r')
+      | Some s, Some r' => Some ({| in_src := s; in_tpath := in_tpath i; in_rank := in_rank i; in_passive := in_passive i |} :: r')
       | _, _ => None
       end
   end.
@@ -151,6 +166,7 @@ Definition E_UNBOUND : Z := 3.
 Definition E_SELFDEP : Z := 4.
 Definition E_INADM : Z := 6.
 Definition E_REBIND : Z := 8.
+Definition E_ALLPASSIVE : Z := 9.
 
 Inductive res (A : Type) := Ok (a : A) | Err (code : Z).
 Arguments Ok {A} a.
@@ -160,10 +176,22 @@ Definition pair_eqb (a b : nat * nat) : bool := (fst a =? fst b)%nat && (snd a =
 
 (* [sharing = true] is the code; [sharing = false] is the reference wiring in which every statement
    gets its own node (used only to STATE that sharing is unobservable) *)
+(* with_passive_inputs: "passive would deactivate every input of the node" (thrown before the lookup) *)
+Definition all_passive (ins : list input) : bool :=
+  existsb in_passive ins && existsb in_rank ins && negb (existsb (fun i => in_rank i && negb (in_passive i)) ins).
+
+(* add_unique_node never looks at the Passive tag: for such a node the markers are simply dropped *)
+Definition clear_passive (i : input) : input :=
+  {| in_src := in_src i; in_tpath := in_tpath i; in_rank := in_rank i; in_passive := false |}.
+Definition eff_inputs (d : ndef) (rins : list input) : list input :=
+  if nd_uniq d then map clear_passive rins else rins.
+
 Definition wire_node (sharing : bool) (w : wst) (l : nat) (d : ndef) (ins : list input) : res wst :=
   match resolve_inputs (w_env w) (w_phs w) ins with
   | None => Err E_INADM
-  | Some rins =>
+  | Some rins0 =>
+      let rins := eff_inputs d rins0 in
+      if all_passive rins then Err E_ALLPASSIVE else
       let k := make_key d rins in
       match (if sharing && interns d then tab_find k (w_tab w) else None) with
       | Some i =>
@@ -301,6 +329,16 @@ Fixpoint emit_from (w : wst) (c : nat) (insts : list inst) : option (list cedge)
       end
   end.
 
+(* the active input slots of an instance as the driver's native nodes declare them: the rank
+   inputs, minus the slots whose source port carried the Passive tag when the INSTANCE was created
+   (NodeBuilder::with_passive_inputs in Wiring::add_node) *)
+Fixpoint active_from (k : nat) (ins : list input) : list nat :=
+  match ins with
+  | [] => []
+  | i :: r => (if in_rank i && negb (in_passive i) then [k] else []) ++ active_from (S k) r
+  end.
+Definition active_slots (it : inst) : list nat := active_from 0 (i_ins it).
+
 Inductive outcome := Built (w : wst) (g : rgraph) (o : list nat) (es : list cedge) | Rejected (code : Z).
 
 (* Wiring::finish on a wired state (exceptions in the order the code can raise them) *)
@@ -334,7 +372,7 @@ Inductive tree :=
 | TUnbound
 | TNull
 | TNode (site : option nat) (def : nat) (sch : list Z) (scal : option (list Z)) (ins : list tree)
-| TIn (tpath : list nat) (rank : bool) (s : tree)
+| TIn (tpath : list nat) (rank : bool) (passive : bool) (s : tree)
 | TPeer (path : list nat) (t : tree)
 | TStruct (cs : list tree).
 
@@ -348,11 +386,14 @@ Fixpoint unf_src (node : nat -> tree) (bind : nat -> option (nat * list nat)) (s
   | SStruct cs => TStruct (map (unf_src node bind) cs)
   end.
 
-Definition unf_inputs (node : nat -> tree) (bind : nat -> option (nat * list nat)) (ins : list input) : list tree :=
-  map (fun i => TIn (in_tpath i) (in_rank i) (unf_src node bind (in_src i))) (norm_inputs ins).
+(* [pv] = "the passive marker is visible": with [pv = false] the unfolding shows exactly what the
+   interning key sees of an input; with [pv = true] it also shows the marker in force. *)
+Definition unf_inputs (pv : bool) (node : nat -> tree) (bind : nat -> option (nat * list nat)) (ins : list input) : list tree :=
+  map (fun i => TIn (in_tpath i) (in_rank i) (in_passive i) (unf_src node bind (in_src i)))
+      (if pv then norm_inputs ins else key_inputs ins).
 
 (* unfolding of instance i of a wired graph *)
-Fixpoint gunf (w : wst) (fuel : nat) (i : nat) : tree :=
+Fixpoint gunf (pv : bool) (w : wst) (fuel : nat) (i : nat) : tree :=
   match fuel with
   | O => TCut
   | S f =>
@@ -360,7 +401,7 @@ Fixpoint gunf (w : wst) (fuel : nat) (i : nat) : tree :=
       | None => TCut
       | Some it =>
           TNode (site_of (i_def it) (i_label it)) (nd_def (i_def it)) (nd_sch (i_def it)) (nd_scal (i_def it))
-                (unf_inputs (gunf w f) (fun h => alookup h (w_binds w)) (i_ins it))
+                (unf_inputs pv (gunf pv w f) (fun h => alookup h (w_binds w)) (i_ins it))
       end
   end.
 
@@ -372,13 +413,13 @@ Fixpoint bind_of (prog : list stmt) (h : nat) : option (nat * list nat) :=
   | _ :: r => bind_of r h
   end.
 
-Fixpoint punf (prog : list stmt) (fuel : nat) (l : nat) : tree :=
+Fixpoint punf (pv : bool) (prog : list stmt) (fuel : nat) (l : nat) : tree :=
   match fuel with
   | O => TCut
   | S f =>
       match nth_error prog l with
       | Some (StNode d ins) =>
-          TNode (site_of d l) (nd_def d) (nd_sch d) (nd_scal d) (unf_inputs (punf prog f) (bind_of prog) ins)
+          TNode (site_of d l) (nd_def d) (nd_sch d) (nd_scal d) (unf_inputs pv (punf pv prog f) (bind_of prog) ins)
       | _ => TCut
       end
   end.
